@@ -83,6 +83,18 @@ func c17Calls(t *ref.Table, pool []string) []call {
 			x = append(x, call{p, l})
 		}
 	}
+	// every method list of length <= 3 over valid, duplicate, unknown and reserved members, in any position
+	mset := []string{"GET", "PATCH", "DELETE", "BOGUS", "HEAD"}
+	for _, p := range []string{"/posts", "/new"} {
+		for _, a := range mset {
+			for _, b := range mset {
+				x = append(x, call{p, []string{a, b}})
+				for _, c := range mset {
+					x = append(x, call{p, []string{a, b, c}})
+				}
+			}
+		}
+	}
 	for _, bad := range []string{"/posts/{}", "/posts/{x}{y}", "/posts/{x}/{x}", "/posts/{x:(}", "/posts/au{:a}", "", "/p/{}", "/p/{x}/{:a}"} {
 		x = append(x, call{bad, []string{"PATCH"}})
 	}
@@ -109,8 +121,7 @@ func c17Check(cfg RouterCfg, hist []Op, r *Router, t *ref.Table, c *explore.Chil
 		c.Probes += int64(len(before)) * 2
 		outc[fmt.Sprintf("%s/%v/%s", why, paniced, PanicClass(pv))] = struct{}{}
 		rep := func(clause, class, obs, exp string) {
-			c.Viols = append(c.Viols, explore.Violation{Property: "C17", Clause: clause, Class: class, Config: cfg.String(), History: hs, Probe: x.String() + " (model: " + why + ")", Observed: obs, Expected: exp,
-				Replay: mustJSON(c17Replay{Router: cfg, Ops: hist, Call: x, Paths: paths, Clause: clause})})
+			c.Viols = append(c.Viols, explore.Violation{Property: "C17", Clause: clause, Class: class, Config: cfg.String(), History: hs, Probe: x.String() + " (model: " + why + ")", Observed: obs, Expected: exp})
 		}
 		if !paniced {
 			if verdict == ref.Reject {
@@ -138,43 +149,6 @@ func c17Check(cfg RouterCfg, hist []Op, r *Router, t *ref.Table, c *explore.Chil
 			outc["note:private-state-restructured-by-rejected-call"] = struct{}{}
 		}
 	}
-}
-
-type c17Replay struct {
-	Router RouterCfg `json:"router"`
-	Ops    []Op      `json:"ops"`
-	Call   call      `json:"call"`
-	Paths  []string  `json:"paths"`
-	Clause string    `json:"clause"`
-}
-
-func replayC17(raw json.RawMessage) (string, error) {
-	var h c17Replay
-	if err := json.Unmarshal(raw, &h); err != nil {
-		return "", err
-	}
-	r, _, perr := buildHistory(h.Router, h.Ops)
-	if perr != "" {
-		return perr, nil
-	}
-	before := c17Vector(r, h.Paths)
-	pv, paniced := Guard(func() { r.Handle(h.Call.P, hv.Route("h:rejected"), nil, h.Call.Ms...) })
-	switch h.Clause {
-	case "C17.rejected", "C17.never-ambiguous":
-		if !paniced {
-			return "Handle returned normally", nil
-		}
-		return fmt.Sprintf("panic: %v", pv), nil
-	case "C17.error-value":
-		return fmt.Sprintf("panic(%T): %v", pv, pv), nil
-	}
-	after := c17Vector(r, h.Paths)
-	for i := range before {
-		if before[i] != after[i] {
-			return "before: " + before[i] + " ; after: " + after[i], nil
-		}
-	}
-	return "identical", nil
 }
 
 func c17Paths(pool []string) []string {
@@ -231,7 +205,7 @@ func pairJob(raw json.RawMessage) (any, error) {
 		outc[fmt.Sprintf("%v/%s/%v", verdict, why, paniced)] = struct{}{}
 		rep := func(clause, class, obs, exp string) {
 			out.Viols = append(out.Viols, explore.Violation{Property: "C17", Clause: clause, Class: class, Config: it.Router.String(), History: []string{fmt.Sprintf("Handle(%q,[GET])", first)}, Probe: fmt.Sprintf("Handle(%q,[POST])", second), Observed: obs, Expected: exp,
-				Replay: mustJSON(c17Replay{Router: it.Router, Ops: []Op{{K: "handle", P: first, Ms: []string{"GET"}}}, Call: call{second, []string{"POST"}}, Paths: paths, Clause: clause})})
+				Replay: explore.ItemReplay("c17/pairs", pairItem{Router: it.Router, First: 0, Pool: []string{first, second}})})
 		}
 		switch {
 		case verdict == ref.Accept && paniced:
@@ -285,7 +259,7 @@ func c17PairPool(ic string) []string {
 func init() {
 	c17Spec.register("c17/expand")
 	explore.RegisterJob("c17/pairs", pairJob)
-	explore.Register(&explore.Check{ID: "C17", Replay: replayC17, Run: func(rc *explore.RunCtx) {
+	explore.Register(&explore.Check{ID: "C17", Run: func(rc *explore.RunCtx) {
 		depth := 2
 		if !rc.Quick() {
 			depth = 4
